@@ -957,6 +957,7 @@ type longParams struct {
 	PerWave    int `json:"perWave"`
 	Resetters  int `json:"resetters"`
 	Snappers   int `json:"snappers"`
+	Resets     int `json:"resets"` // hot rounds: resets per resetter
 }
 
 func TestLongRun(t *testing.T) {
@@ -977,8 +978,15 @@ func TestLongRun(t *testing.T) {
 	p := longParams{Rounds: 2, Goroutines: 8, Waves: 20, PerWave: 200, Resetters: 2, Snappers: 1}
 	in.Param("long", &p)
 	dir := t.TempDir()
+	if p.Resets == 0 {
+		p.Resets = 200000
+	}
 	for round := range p.Rounds {
-		longRound(&n, dir, in.Seed, round, &p, res)
+		if round%2 == 0 {
+			hotRound(&n, dir, in.Seed, round, &p, res)
+		} else {
+			longRound(&n, dir, in.Seed, round, &p, res)
+		}
 	}
 }
 
@@ -1013,13 +1021,6 @@ func longRound(n *names, dir string, seed int64, round int, p *longParams, res *
 	procs := []int{0, 32, 8, 16}[round%4] // more threads than cores: the OS preempts inside the windows too
 	if procs > 0 {
 		defer runtime.GOMAXPROCS(runtime.GOMAXPROCS(procs))
-	}
-	if round%2 == 0 {
-		// hot round: few buckets, so that resets are short and frequent and every counter is hammered
-		hot := *p
-		hot.PerWave = p.PerWave * p.Waves / 2
-		hot.Waves = 2
-		p = &hot
 	}
 	// user 0 is the anonymous bucket; wave w introduces user w+1, which every goroutine hits first thing after the barrier
 	users := make([]string, p.Waves+1)
@@ -1237,4 +1238,195 @@ func longRound(n *names, dir string, seed int64, round int, p *longParams, res *
 	res.Count("long_sessions", p.Goroutines*p.Waves*p.PerWave)
 	res.Count("long_resets", nr)
 	res.AddSteps(1, p.Goroutines*p.Waves*p.PerWave)
+}
+
+// hotRound is driven by the resetters: each performs p.Resets SnapshotAndReset calls back to back on a collector
+// with three buckets while the collectors record sessions without pause.  A read-and-clear that is not one atomic
+// step loses a session whenever an add lands in (or the resetter is descheduled in) its window; with millions of
+// resets this shows even when the machine gives the test little real parallelism.
+func hotRound(n *names, dir string, seed int64, round int, p *longParams, res *vio.Result) {
+	e, err := newEnv(dir, []string{"w1", "w2"})
+	if err != nil {
+		res.Break("hot round: %v", err)
+		return
+	}
+	users := []string{"", "w1", "w2"}
+	ncoll := max(2, p.Goroutines/2)
+	nreset := p.Resetters + 2
+	defer runtime.GOMAXPROCS(runtime.GOMAXPROCS(ncoll + nreset + 3))
+	const cycle = 1024
+	plans := make([][]session, ncoll)
+	done := make([]int, ncoll) // sessions each collector recorded
+	for g := range plans {
+		rnd := rand.New(rand.NewPCG(uint64(seed), uint64(round*1000+g)))
+		for range cycle {
+			plans[g] = append(plans[g], session{kind: rnd.IntN(3), user: rnd.IntN(3), x: 1 + rnd.Uint64N(1<<24), y: 1 + rnd.Uint64N(1<<16)})
+		}
+	}
+	var stop atomic.Bool
+	var collectors, resetters, snappers sync.WaitGroup
+	collectors.Add(ncoll)
+	for g := range ncoll {
+		go func() {
+			defer collectors.Done()
+			plan := plans[g]
+			i := 0
+			for ; !stop.Load(); i++ {
+				s := &plan[i%cycle]
+				switch s.kind {
+				case 0:
+					e.sc.CollectTCPSession(users[s.user], s.x, s.y)
+				case 1:
+					e.sc.CollectUDPSessionDownlink(users[s.user], s.x, s.y)
+				default:
+					e.sc.CollectUDPSessionUplink(users[s.user], s.x, s.y)
+				}
+			}
+			done[g] = i
+		}()
+	}
+	type acc struct {
+		users map[string]*stats.Traffic
+		tot   stats.Traffic
+	}
+	accs := make([]*acc, nreset)
+	var bad sync.Map
+	checkSum := func(what string, s *stats.Server) {
+		var sum stats.Traffic
+		for i := range s.Users {
+			sum.Add(s.Users[i].Traffic)
+		}
+		t := s.Traffic
+		if t.DownlinkPackets < sum.DownlinkPackets || t.DownlinkBytes < sum.DownlinkBytes || t.UplinkPackets < sum.UplinkPackets ||
+			t.UplinkBytes < sum.UplinkBytes || t.TCPSessions < sum.TCPSessions || t.UDPSessions < sum.UDPSessions {
+			bad.Store("less", fmt.Sprintf("%s: a server total %+v is less than the sum of the users' figures %+v", what, t, sum))
+		}
+	}
+	resetters.Add(nreset)
+	for r := range nreset {
+		a := &acc{users: map[string]*stats.Traffic{}}
+		accs[r] = a
+		go func() {
+			defer resetters.Done()
+			for i := range p.Resets {
+				var s stats.Server
+				if i%1024 != 1023 {
+					s = e.sc.SnapshotAndReset()
+				} else {
+					code, body := e.get("/servers/" + serverName + "/stats?clear")
+					if code != 200 || json.Unmarshal(body, &s) != nil {
+						bad.Store("status", fmt.Sprintf("GET stats?clear answered %d: %.200s", code, body))
+						return
+					}
+				}
+				for j := range s.Users {
+					t := a.users[s.Users[j].Name]
+					if t == nil {
+						t = new(stats.Traffic)
+						a.users[s.Users[j].Name] = t
+					}
+					t.Add(s.Users[j].Traffic)
+				}
+				a.tot.Add(s.Traffic)
+				if i%16 == 0 {
+					checkSum("reset", &s)
+				}
+			}
+		}()
+	}
+	snappers.Add(1)
+	go func() {
+		defer snappers.Done()
+		for !stop.Load() {
+			s := e.sc.Snapshot()
+			checkSum("snapshot", &s)
+		}
+	}()
+	resetters.Wait()
+	stop.Store(true)
+	collectors.Wait()
+	snappers.Wait()
+	final := fastSnapshot(n, e.sc.SnapshotAndReset())
+	bad.Range(func(k, v any) bool {
+		key := "stats.snapshot/total-less-than-users"
+		if k != "less" {
+			key = "stats.api/unexpected-status"
+		}
+		res.Violation(vio.Finding{Key: key, Behaviour: round, Text: v.(string)})
+		return true
+	})
+	rec := map[string]figures{}
+	sessions := 0
+	for g, plan := range plans {
+		sessions += done[g]
+		for j, s := range plan {
+			// entry j of the cycle was executed once per full cycle, plus once more if j lies before the cut
+			times := uint64(done[g] / cycle)
+			if j < done[g]%cycle {
+				times++
+			}
+			u := users[s.user]
+			if rec[u] == nil {
+				rec[u] = figures{}
+			}
+			for f, v := range contribution(kindNames[s.kind], s.x, s.y) {
+				rec[u][f] += v * times
+			}
+		}
+	}
+	rep := map[string]figures{}
+	totRep := figures{}
+	addSnap := func(part *snapshot) {
+		for u, f := range part.Users {
+			if rep[u] == nil {
+				rep[u] = figures{}
+			}
+			for k, v := range f {
+				rep[u][k] += v
+			}
+		}
+		for k, v := range part.Tot {
+			totRep[k] += v
+		}
+	}
+	for _, a := range accs {
+		srv := stats.Server{Traffic: a.tot}
+		for u, t := range a.users {
+			srv.Users = append(srv.Users, stats.User{Name: u, Traffic: *t})
+		}
+		addSnap(fastSnapshot(n, srv))
+	}
+	addSnap(final)
+	var diffs []string
+	for _, f := range n.Fields {
+		var totRec uint64
+		for _, u := range users {
+			totRec += rec[u][f]
+			if u != "" && rec[u][f] != rep[u][f] {
+				diffs = append(diffs, fmt.Sprintf("user %q %s: recorded %d, reported %d (%+d)", u, f, rec[u][f], rep[u][f], int64(rep[u][f]-rec[u][f])))
+			}
+		}
+		if totRec != totRep[f] {
+			diffs = append(diffs, fmt.Sprintf("server total %s: recorded %d, reported %d (%+d)", f, totRec, totRep[f], int64(totRep[f]-totRec)))
+		}
+	}
+	for u := range rep {
+		if !slices.Contains(users, u) {
+			diffs = append(diffs, fmt.Sprintf("user %q reported although nothing was recorded under that name", u))
+		}
+	}
+	if len(diffs) > 0 {
+		slices.Sort(diffs)
+		nd := len(diffs)
+		if nd > 6 {
+			diffs = diffs[:6]
+		}
+		res.Violation(vio.Finding{Key: "stats.reset/traffic-lost-or-double-counted", Behaviour: round,
+			Text: fmt.Sprintf("%d goroutines recording %d sessions against %d x %d back-to-back resets: after everything returned, resets + final snapshot differ from the sessions recorded in %d figures: %s",
+				ncoll, sessions, nreset, p.Resets, nd, strings.Join(diffs, "; ")),
+			Replay: map[string]any{"long": p, "round": round}})
+	}
+	res.Count("long_sessions", sessions)
+	res.Count("long_resets", nreset*p.Resets)
+	res.AddSteps(1, sessions)
 }
